@@ -504,7 +504,22 @@ pub fn f_delete(seed: u64, burst: bool) -> Plan {
     for _ in 0..rng.range(0, 3) {
         let my = slot;
         slot += 1;
-        let mut s = vec![Step::after(rng.below(2_000), Op::StreamOpen { slot: my, sub: victim.clone(), max_msgs: 0, max_bytes: 0, policy: if rng.chance(500) { StreamPolicy::AckAll } else { StreamPolicy::Hold }, window: 0, stall_after: 0, stall_us: 0 })];
+        // some streams have a small max_outstanding_messages and hold what they get; one in eight is
+        // a slow client (its response pipe fills up and its handler is no longer polled)
+        let slow = !burst && rng.chance(125);
+        let mut s = vec![Step::after(
+            rng.below(2_000),
+            Op::StreamOpen {
+                slot: my,
+                sub: victim.clone(),
+                max_msgs: *rng.pick(&[0i64, 0, 1, 2]),
+                max_bytes: 0,
+                policy: if rng.chance(500) { StreamPolicy::AckAll } else { StreamPolicy::Hold },
+                window: if slow { rng.range(1, 2) as u32 } else { 0 },
+                stall_after: 0,
+                stall_us: if slow { 120_000_000 } else { 0 },
+            },
+        )];
         if rng.chance(500) {
             s.push(Step::after(rng.range(100, 3_000), Op::StreamCloseReq { slot: my }));
         }
@@ -519,7 +534,7 @@ pub fn f_delete(seed: u64, burst: bool) -> Plan {
     plan.phases.push(Phase { scripts, advance_us: rng.below(2_000_000), audit: false });
     // sometimes the topic goes first: the subscription is then an orphan when it is deleted
     if !burst && !fresh && rng.chance(250) {
-        plan.phases.push(Phase { scripts: vec![vec![Step::new(Op::DeleteTopic { topic: topic.clone() })]], advance_us: rng.below(500_000), audit: false });
+        plan.phases.push(Phase { scripts: vec![vec![Step::new(Op::DeleteTopic { topic: topic.clone() })]], advance_us: rng.below(500_000), audit: true });
     }
     // the delete, racing with other requests
     let mut scripts: Vec<Vec<Step>> = Vec::new();
@@ -1363,7 +1378,16 @@ pub fn f_bigbatch(seed: u64) -> Plan {
     }
     plan.phases.push(Phase { scripts: vec![setup], advance_us: 0, audit: false });
     let mut scripts: Vec<Vec<Step>> = Vec::new();
-    scripts.push(vec![Step::after(rng.below(2) * 1_000, Op::PublishMany { topic: topic.clone(), count: *rng.pick(&[999u32, 1000, 1001, 1500, 2048, 3000]) })]);
+    if rng.chance(300) {
+        // a few very large messages instead of very many small ones: responses of several MiB
+        let mut s = Vec::new();
+        for _ in 0..rng.range(4, 7) {
+            s.push(Step::after(rng.below(2) * 1_000, Op::Publish { topic: topic.clone(), msgs: vec![MsgSpec { data: 5, attrs: *rng.pick(&[0u8, 1]) }] }));
+        }
+        scripts.push(s);
+    } else {
+        scripts.push(vec![Step::after(rng.below(2) * 1_000, Op::PublishMany { topic: topic.clone(), count: *rng.pick(&[999u32, 1000, 1001, 1500, 2048, 3000]) })]);
+    }
     for _ in 0..rng.range(1, 3) {
         let mut s = Vec::new();
         for _ in 0..rng.range(1, 4) {
